@@ -170,6 +170,7 @@ func execC35(c recCase, env *kit.Env) kit.Outcome {
 		}()
 	} else {
 		s := &sched.Sched{MaxSteps: 60000}
+		s.YieldOnUnlock = sched.UnlockYields(c.SchedSeed)
 		s.Choose = sched.ListChooser(c.Decisions, sched.MixedChooser(c.SchedSeed, s))
 
 		if c.Decisions != nil {
